@@ -6,8 +6,10 @@ EXTENDS Exchange, Json, IOUtils
 
 CONSTANTS ShardK, ShardS, EmitOn
 
-Sc(fr, len, cut, ka, extra, after, late, shape) ==
-    [fr |-> fr, len |-> len, cut |-> cut, ka |-> ka, extra |-> extra, after |-> after, late |-> late, shape |-> shape]
+ScP(fr, len, cut, ka, extra, after, late, shape, pre) ==
+    [fr |-> fr, len |-> len, cut |-> cut, ka |-> ka, extra |-> extra, after |-> after, late |-> late, shape |-> shape,
+     pre |-> pre]
+Sc(fr, len, cut, ka, extra, after, late, shape) == ScP(fr, len, cut, ka, extra, after, late, shape, "none")
 Op(kind, k, hold) == [kind |-> kind, k |-> k, hold |-> hold]
 
 \* ---- server behaviours (hard class): framing x keep-alive x extras (same / later segment) x early EOF
@@ -54,6 +56,22 @@ S4ScriptSeq == <<
     Sc("chunked", 4, NoCut, TRUE, "none", "none", 4, "http"),    \* one chunk: cell | head-shaped block, cell, cell, term
     Sc("cl", 2, NoCut, TRUE, "none", "none", 3, "cells")      \* the whole reply is late: the client times out on the head
 >>
+\* ---- unsolicited bytes with a PREFIX: {CRLF, CRLF CRLF, SP, lone LF, HTAB} x {nothing, partial status line,
+\* complete response, EOF}, pending in the kernel buffer at the next checkout after a cleanly finished exchange
+PreScriptSeq == <<
+    ScP("bodyless", 0, NoCut, TRUE, "none", "smuggle", 0, "cells", "crlf"),
+    ScP("bodyless", 0, NoCut, TRUE, "none", "smuggle", 0, "cells", "crlfcrlf"),
+    ScP("bodyless", 0, NoCut, TRUE, "none", "smuggle", 0, "cells", "sp"),
+    ScP("bodyless", 0, NoCut, TRUE, "none", "smuggle", 0, "cells", "lf"),
+    ScP("bodyless", 0, NoCut, TRUE, "none", "smuggle", 0, "cells", "htab"),
+    ScP("bodyless", 0, NoCut, TRUE, "none", "pre", 0, "cells", "crlf"),
+    ScP("bodyless", 0, NoCut, TRUE, "none", "partial", 0, "cells", "none"),
+    ScP("bodyless", 0, NoCut, TRUE, "none", "partial", 0, "cells", "crlf"),
+    ScP("bodyless", 0, NoCut, TRUE, "none", "eof", 0, "cells", "crlf"),
+    ScP("cl", 2, NoCut, TRUE, "none", "smuggle", 0, "cells", "crlf"),
+    ScP("chunked", 2, NoCut, TRUE, "none", "smuggle", 0, "cells", "crlf"),
+    ScP("cl", 2, NoCut, TRUE, "smuggle", "none", 0, "cells", "crlf")
+>>
 FinalScriptSeq == <<
     Sc("cl", 2, NoCut, TRUE, "none", "none", 0, "cells"),
     Sc("chunked", 2, NoCut, TRUE, "none", "none", 0, "cells")
@@ -77,7 +95,8 @@ Range(f) == {f[i] : i \in DOMAIN f}
 HardScripts == Range(HardScriptSeq)
 CoreScripts == Range(CoreScriptSeq)
 S4Scripts == Range(S4ScriptSeq)
-HardS4Scripts == HardScripts \cup S4Scripts
+PreScripts == Range(PreScriptSeq)
+HardS4Scripts == HardScripts \cup S4Scripts \cup PreScripts
 FinalScripts == Range(FinalScriptSeq)
 AllOps == Range(AllOpSeq)
 CoreOps == Range(CoreOpSeq)
@@ -85,6 +104,7 @@ FinalOps == Range(FinalOpSeq)
 NoDev == {}
 DevNoProbe == {"NoProbe"}
 DevProbeEofOnly == {"ProbeEofOnly"}
+DevProbeSkipsCrlf == {"ProbeSkipsLeadingCrlf"}
 DevNoCloseOnUnclean == {"NoCloseOnUnclean"}
 DevNoDiscardOnError == {"NoDiscardOnError"}
 DevRawNotReady == {"RawNotReady", "ReleaseKeepsUnread"}   \* ResponseNotReady needs a pooled connection with an open response
@@ -94,7 +114,7 @@ DevRead1Asked == {"Read1AskedIsRead"}
 
 \* ---- sharding over the first step's choice, emission at the end of each complete behaviour
 Idx(seq, x) == CHOOSE i \in DOMAIN seq : seq[i] = x
-AllScriptSeq == HardScriptSeq \o S4ScriptSeq
+AllScriptSeq == HardScriptSeq \o S4ScriptSeq \o PreScriptSeq
 FirstChoice == Idx(AllScriptSeq, plan'[1]) + Idx(AllOpSeq, ops'[1])
 Shard == (pc = "start" /\ cur = 0) => (FirstChoice % ShardK = ShardS)
 Emit == (EmitOn /\ pc = "done" /\ pc' = "end") => PrintT(<<"H", ToJson(hist)>>)
